@@ -3,6 +3,7 @@ package main
 import (
 	"go/token"
 	"go/types"
+	"strings"
 
 	"golang.org/x/tools/go/ssa"
 )
@@ -230,7 +231,7 @@ func init() {
 	})
 }
 
-var carryMethods = map[string]bool{"Reverse": true, "TransformXY": true, "SnapToGrid": true, "Densify": true, "Simplify": true, "ForceCW": true, "ForceCCW": true, "forceOrientation": true}
+var carryMethods = map[string]bool{"Reverse": true, "TransformXY": true, "SnapToGrid": true, "Densify": true, "Simplify": true, "ForceCW": true, "ForceCCW": true, "forceOrientation": true, "AsMultiPoint": true, "AsMultiLineString": true, "AsMultiPolygon": true}
 
 func runC16Carry(c *Ctx) {
 	n := 0
@@ -242,8 +243,11 @@ func runC16Carry(c *Ctx) {
 		if !geomTypeNames[recvT] {
 			continue
 		}
+		if strings.HasPrefix(f.Name(), "AsMulti") && recvT == "Geometry" {
+			continue // the comma-ok conversions of Geometry: their zero literal goes with ok = false
+		}
 		rt := resultType0(f)
-		if rt == nil || namedName(rt) != recvT {
+		if rt == nil || (namedName(rt) != recvT && !(strings.HasPrefix(f.Name(), "AsMulti") && geomTypeNames[namedName(rt)])) {
 			continue
 		}
 		recv := f.Params[0]
